@@ -172,7 +172,7 @@ def ref_round_pair(mode, sign, l, r, tz):
     return l + 1 if ref_round_pair_up(mode, sign == 'Minus', l, r, 10, tz) else l
 
 
-def validate(prog, rng, n, dmode):
+def validate(prog, rng, n, dmode, rep=None):
     cases = []
     for i in range(n):
         digs = rng.randint(1, 25)
@@ -187,6 +187,11 @@ def validate(prog, rng, n, dmode):
     mism = []
     S.DIGIT_BOUND[0] = 60
     for (nn, s, k, mode), nat in zip(cases, outs):
+        if rep is not None:
+            exp = H.dec_str(spec.py_round_div_pow10(nn, k, mode) if k >= 1 else nn * 10 ** (-k), s - k)
+            if nat != exp:
+                H.probe_violation(rep, PROP, 'native with_scale_round(%d@%d -> scale %d, %s) = %s, exact %s' % (nn, s, s - k, mode, nat, exp), {'kind': 'wsr', 'D': 0, 'k': k, 'mode': mode}, {'n': nn, 's0': s}, nat)
+                continue
         m = E.Machine(prog, (), [], E.Stats(), loop_bound=3000)
         try:
             ri, rs = exec_wsr(m, nn, s, s - k, mode)
@@ -227,7 +232,7 @@ def main(tier):
     rep.assumptions = ['to_radix_le / from_radix_le / BigInt::new relate an integer to its decimal digit vector (num-bigint contract)']
     rep.outside = ['more than D digits for with_scale_round/round', '|scale| > 2^60', 'round_u32 results that overflow u32']
     sys.stderr.write('[C06] %d tasks, default mode %s\n' % (len(tasks), dmode))
-    rep.validated, rep.validation_mismatches = validate(prog, rng, 300 if tier == 'quick' else 3000, dmode)
+    rep.validated, rep.validation_mismatches = validate(prog, rng, 300 if tier == 'quick' else 3000, dmode, rep)
     results = H.run_parallel(tasks, worker, progress=100)
     rep.add(results)
     for r in results:
